@@ -120,7 +120,13 @@ fn compress(input: PathBuf, output: PathBuf, level: u8) -> color_eyre::Result<()
         }
     };
     let source_file = File::open(input).wrap_err("failed to open input file")?;
-    let source_size = source_file.metadata()?.len() as usize;
+    let source_metadata = source_file.metadata()?;
+    // A directory can be opened but not read: the compressor would panic on the first read,
+    // after the output file has been created. Refuse it before the output is touched.
+    if source_metadata.is_dir() {
+        return Err(color_eyre::eyre::eyre!("input is a directory"));
+    }
+    let source_size = source_metadata.len() as usize;
     let buffered_source = BufReader::new(source_file);
     let encoder_input = ProgressMonitor::new(buffered_source, source_size);
     let output: File = File::create(output).wrap_err("failed to open output file for writing")?;
